@@ -495,7 +495,7 @@ def same_traversal(impl_text, model_text, shuf_a, shuf_b):
         return impl_text == model_text
 
 
-def judge(rep, case, res, model_reply):
+def judge(rep, case, res, model_reply, alt_reply=None):
     """compare with the model's reply and apply the property oracles"""
     kind = case["kind"]
     if "error" in res:
@@ -511,7 +511,10 @@ def judge(rep, case, res, model_reply):
     if kind in ("pts", "deeponet"):
         rep.count(f"{kind}:{case.get('layout','')}")
         shuf = (case.get("shuffle", 0), 0) if kind == "pts" else (case["shB"], case["shT"])
-        if not same_traversal(res["text"], model_reply, *shuf):
+        if not same_traversal(res["text"], model_reply, *shuf) and alt_reply is not None and same_traversal(res["text"], alt_reply, *shuf):
+            # which rows fill the incomplete last window is not fixed by the property: the model covers both policies
+            rep.count("per-function layout: last window = its last bs rows (model `uniquePassWin lastSlice`, theorem unique_cover_last)")
+        elif not same_traversal(res["text"], model_reply, *shuf):
             rep.disagree("loader index sets: drivers/C16.lean `" + model_line(case).split()[0] + "` vs iteration of the real loader",
                          case, res["text"], model_reply)
         for p in res["problems"]:
@@ -560,12 +563,17 @@ def run(ctx, rep, cases=None):
             judge(rep, c, r, r.get("text", ""))  # oracles only
         rep.disagreements.clear()
         raise
-    for c, r, m in zip(cases, results, replies):
+    # the per-function DeepONet layout under the other tail policy, asked only where the coded policy does not match
+    alt_idx = [i for i, (c, r, m) in enumerate(zip(cases, results, replies))
+               if c["kind"] == "deeponet" and c["layout"] in ("unique", "uniqsame") and "error" not in r
+               and not same_traversal(r["text"], m, c["shB"], c["shT"])]
+    alt = dict(zip(alt_idx, common.run_driver("C16", [model_line(cases[i]).replace("unique", "uniquelast", 1) for i in alt_idx]))) if alt_idx else {}
+    for i_, (c, r, m) in enumerate(zip(cases, results, replies)):
         nontrivial = (c.get("n", 0) >= 2) or (c.get("nB", 0) >= 2 and c.get("nT", 0) >= 2) or (c["kind"] == "fold" and (len(c.get("x", ())) >= 2 or c.get("nB", 0) * c.get("nT", 0) >= 2))
         rep.case(c, nontrivial, sample=dict(case=c, implementation=r.get("text", r.get("value")), model=m), kind=c["kind"] + c.get("layout", "") + c.get("loader", ""))
         if c.get("grid", 1) > 1:
             rep.count("points with a further axis per sample (shape [n, M, dim]), M=%d" % c["grid"])
-        judge(rep, c, r, m)
+        judge(rep, c, r, m, alt.get(i_))
     rep.hist["box"] = f"points n<={ctx.scale(7,12)}; deeponet sizes<={ctx.scale(6,9)}"
 
 
